@@ -719,7 +719,9 @@ fn pid(l: &Lint, doc: &Document, loose: bool) -> String {
     let flagged: String = src[s..e].iter().collect();
     let tok_texts = |a: usize, b: usize| -> Vec<String> {
         if a >= b { return vec![]; }
-        doc.get_tokens().iter().filter(|t| t.span.start < b && a < t.span.end && t.span.end > t.span.start)
+        // (a zero-width structural token strictly inside the window is one of "the tokens within two characters":
+        // Markdown puts the break that ends a block at the start of the block's last text run)
+        doc.get_tokens().iter().filter(|t| t.span.start < b && a < t.span.end)
             // loose identity: only "words" (anything that is not white space or a structural break)
             .filter(|t| !loose || !(t.kind.is_whitespace() || matches!(t.kind, harper_core::TokenKind::ParagraphBreak)))
             .map(|t| src[t.span.start..t.span.end.min(src.len())].iter().collect::<String>()).collect()
@@ -744,14 +746,37 @@ pub fn c14(a: &Args) {
     let far_pre = ["Some intro words here.\n\n", "\"Quoted\" intro words.\n\n", "An earlier paragraph with teh typo.\n\n", "Ünïcödé 😀 first.\n\n"];
     let far_post = ["\n\nMore words follow here.", "\n\nA \"quoted\" closing remark.", "\n\nAnother teh typo later."];
     let nsess = a.num("sessions", 300) as usize;
-    let mut sessions: Vec<(String, u64)> = Vec::new();
-    for s in special { for k in 0..4 { sessions.push((s.to_string(), k)); } }
+    let mut sessions: Vec<(String, u64, &str)> = Vec::new();
+    for s in special { for k in 0..4 { sessions.push((s.to_string(), k, "plain")); } }
     for i in 0..nsess {
         let t = if i % 3 == 0 { crate::inputs::compose(&corpus, &mut rng) } else { rng.pick(&corpus[..]).clone() };
-        sessions.push((t, rng.next()));
+        sessions.push((t, rng.next(), "plain"));
+    }
+    // Markdown structure around the flagged words: loose and nested lists, quotes, headings, tables (block ends
+    // are tokens of their own; a lint's identity is taken from the tokens around it)
+    let typo_sentences: Vec<String> = corpus.iter().filter(|s| !s.contains('\n') && s.chars().count() > 12 && s.chars().count() < 90).cloned().collect();
+    for i in 0..a.num("md-sessions", nsess as u64 / 2) as usize {
+        let mut sent = |rng: &mut Rng| -> String {
+            let t = rng.pick(&typo_sentences[..]).clone();
+            match rng.below(4) { 0 => format!("{t} It has teh typo."), 1 => format!("An test: {t}"), 2 => format!("{t} {}", rng.pick(&special[..])), _ => t }
+        };
+        let (a1, b1, c1, d1) = (sent(&mut rng), sent(&mut rng), sent(&mut rng), sent(&mut rng));
+        let t = match i % 9 {
+            0 => format!("- {a1}\n\n- {b1}\n\n- {c1}\n\n{d1}"),
+            1 => format!("- item\n  - {a1}\n- {b1}\n\n{c1}"),
+            2 => format!("1. {a1}\n\n   {b1}\n\n2. {c1}\n"),
+            3 => format!("> {a1}\n>\n> {b1}\n\n{c1}"),
+            4 => format!("# {a1}\n\n{b1}\n\n## {c1}\n\n{d1}\n"),
+            5 => format!("- {a1}\n  - {b1}\n    - {c1}\n\n{d1}"),
+            6 => format!("* {a1}\n\n  > {b1}\n\n* {c1}\n\n{d1}"),
+            7 => format!("| a | b |\n|---|---|\n| {a1} | {b1} |\n\n{c1}"),
+            _ => crate::inputs::markdown_doc(&a1, &mut rng),
+        };
+        sessions.push((t, rng.next(), "md"));
     }
     let evs = par_map(sessions.len(), a.num("threads", 12) as usize, |_| front::all_rules_group(Dialect::American), |lg, i| {
-        let (text, s) = &sessions[i];
+        let (text, s, lang) = &sessions[i];
+        let wlang = || if *lang == "md" { harper_wasm::Language::Markdown } else { harper_wasm::Language::Plain };
         let mut r = Rng::new(*s);
         let mut evs = vec![json!({"ev": "Reset", "text": text})];
         let res = catch(|| {
@@ -761,12 +786,12 @@ pub fn c14(a: &Args) {
             let mut cur = text.clone();
             let mut last_ignored: Option<(usize, usize)> = None;
             for step in 0..4 {
-                let doc = make_doc(&cur, "plain");
+                let doc = make_doc(&cur, lang);
                 let all = lg.lint(&doc);
                 let mut vis = all.clone();
                 ignored.remove_ignored(&mut vis, &doc);
                 let wkeys: Option<Vec<(usize, usize, String)>> = wasm.as_mut().map(|w| {
-                    w.lint(cur.clone(), harper_wasm::Language::Plain).iter().map(|x| (x.span().start, x.span().end, x.message())).collect()
+                    w.lint(cur.clone(), wlang()).iter().map(|x| (x.span().start, x.span().end, x.message())).collect()
                 });
                 let all_j: Vec<Value> = all.iter().map(|l| {
                     let mut e = lint_entry(l, &doc);
@@ -788,10 +813,10 @@ pub fn c14(a: &Args) {
                         last_ignored = Some((vis[k].span.start, vis[k].span.end));
                         let mut wasm_done = false;
                         if let Some(w) = wasm.as_mut() {
-                            let wl = w.lint(cur.clone(), harper_wasm::Language::Plain);
+                            let wl = w.lint(cur.clone(), wlang());
                             if let Some(x) = wl.into_iter().find(|x| x.span().start == vis[k].span.start && x.span().end == vis[k].span.end && x.message() == vis[k].message) {
                                 // the page may have been looked at as Markdown in the meantime
-                                if r.chance(1, 2) { let _ = w.lint(cur.clone(), harper_wasm::Language::Markdown); }
+                                if r.chance(1, 2) { let _ = w.lint(cur.clone(), if *lang == "md" { harper_wasm::Language::Plain } else { harper_wasm::Language::Markdown }); }
                                 w.ignore_lint(cur.clone(), x);
                                 wasm_done = true;
                             }
@@ -819,6 +844,13 @@ pub fn c14(a: &Args) {
                                         evs2.push(json!({"ev": "Edit", "kind": "alter", "at": at}));
                                     }
                                 }
+                            }
+                            0 | 1 if *lang == "md" => {
+                                // whole paragraphs of any length, in front or behind
+                                let k = r.range(1, 8);
+                                let para: String = (0..k).map(|_| r.pick(&typo_sentences[..]).clone()).collect::<Vec<_>>().join(" ");
+                                if r.chance(1, 2) { cur = format!("{para}\n\n{cur}"); evs2.push(json!({"ev": "Edit", "kind": "prepend"})); }
+                                else { cur = format!("{}\n\n{para}", cur.trim_end()); evs2.push(json!({"ev": "Edit", "kind": "append"})); }
                             }
                             0 => { cur = format!("{}{}", far_pre[r.below(far_pre.len())], cur); evs2.push(json!({"ev": "Edit", "kind": "prepend"})); }
                             1 => { cur = format!("{}{}", cur.trim_end(), far_post[r.below(far_post.len())]); evs2.push(json!({"ev": "Edit", "kind": "append"})); }
@@ -927,4 +959,27 @@ pub fn c14(a: &Args) {
     });
     for v in evs { for e in v { out.emit(&e); } }
     println!("{}", json!({"events": out.finish()}));
+}
+
+/// `hv c14dbg --text T [--lang md]`: ignore each lint in turn and say which lints disappear (for reading replays)
+pub fn c14dbg(a: &Args) {
+    use harper_core::IgnoredLints;
+    let text = a.req("text").replace("\\n", "\n");
+    let lang = a.get("lang").unwrap_or("plain");
+    let doc = make_doc(&text, lang);
+    let mut lg = front::all_rules_group(Dialect::American);
+    let all = lg.lint(&doc);
+    for (i, l) in all.iter().enumerate() {
+        let mut ig = IgnoredLints::new();
+        ig.ignore_lint(l, &doc);
+        let mut vis = all.clone();
+        ig.remove_ignored(&mut vis, &doc);
+        let hidden: Vec<usize> = (0..all.len()).filter(|k| !vis.contains(&all[*k])).collect();
+        println!("{i}: {}..{} {:?} pid={} hides {:?}", l.span.start, l.span.end, l.message, &pid(l, &doc, false)[..6], hidden);
+        if a.get("ctx").is_some() {
+            for (name, sp) in [("before", harper_core::Span::new(l.span.start.saturating_sub(2), l.span.start)), ("under", l.span), ("after", harper_core::Span::new_with_len(l.span.end, 2))] {
+                println!("    {name}: {}", serde_json::to_string(&doc.fat_tokens_intersecting(sp)).unwrap());
+            }
+        }
+    }
 }
